@@ -2,9 +2,9 @@ package main
 
 import (
 	"fmt"
-	"os"
 	"math"
 	"math/big"
+	"os"
 	"strings"
 
 	"github.com/tuneinsight/lattigo/v6/core/rlwe"
@@ -284,7 +284,7 @@ func (m *machine) step(ins instr) int {
 		case "scalar":
 			// constant added to every slot; real and imaginary parts are rounded to integers at scale s: error <= 2·(1/2)/s
 			n.v = cklib.Map1(a.v, func(p cklib.C) cklib.C { return pm(p, x.k.m) })
-			n.eps = a.eps + 2/a.sf()
+			n.eps = a.eps + 2/a.sf() + x.k.abs()*2*nb.EncEps
 		case "vec":
 			// vector encoded at the ciphertext's own scale and level
 			n.v = cklib.Map2(a.v, x.vec.m, pm)
@@ -350,7 +350,8 @@ func (m *machine) step(ins instr) int {
 			n.v = cklib.Map1(a.v, func(p cklib.C) cklib.C { return p.Mul(x.k.m) })
 			if x.k.isInt {
 				// Gaussian integer: exact RNS scalar, no scaling, no level
-				n.eps = a.eps * x.k.abs()
+				// (+ the conversion of the constant to the encoding precision: relative 2^-prec, zero for small constants)
+				n.eps = a.eps*x.k.abs() + a.v.MaxAbs()*x.k.abs()*2*nb.EncEps
 				c.Cover("scalar-path", "gaussian-integer")
 			} else {
 				// non-integer: constant scaled by the current prime(s); scale multiplied accordingly
@@ -733,6 +734,12 @@ func (m *machine) step(ins instr) int {
 			f = big.NewRat(3, 1)
 		case "x2.5":
 			f = big.NewRat(5, 2)
+		case "x2p63": // first value whose uint64 representation has the top bit set
+			f = ratPow2(63)
+		case "x2p64m1":
+			f = new(big.Rat).Sub(ratPow2(64), big.NewRat(1, 1))
+		case "x2p32":
+			f = ratPow2(32)
 		}
 		err, pan := run2(func(o *rlwe.Ciphertext) error { return ev.ScaleUp(a.ct, scaleOfRat(f), o) },
 			func() (*rlwe.Ciphertext, error) { return ev.ScaleUpNew(a.ct, scaleOfRat(f)) })
